@@ -20,6 +20,8 @@
 import EasyMl.Props.C09Views
 import EasyMl.Lemmas.Survivor
 import EasyMl.Props.C11
+import EasyMl.Props.C12
+import EasyMl.Model.RecordContainer
 
 namespace EasyMl.C09
 open EasyMl EasyMl.Iter EasyMl.Spec
@@ -97,5 +99,77 @@ theorem matrix_iter_after_history (m : Matrix α) (h : m.Inv) (ops : List (Matri
         (fun k => k / (m.run ops).rows + (k % (m.run ops).rows) * (m.run ops).columns) :=
   let hi := (C11.history_never_empty m h ops).2.2
   ⟨hi, (matrix_iter_of_inv _ hi).1, (matrix_iter_of_inv _ hi).2.1⟩
+
+/-! ## `map_mut` as mutable iteration -/
+
+/-- **`Tensor::map_mut` is the mutable iterator writing `g(old)`**, including a closure that
+    panics: after `p` calls of the writing mutable iterator over a valid tensor the storage, read
+    in order, is exactly what `map_mut` leaves behind when its closure panics at call `p`
+    (`Survivor.mapMut t g (some p)`: the closure's results in the first `p` cells *in iteration
+    order*, the old contents from there on; the complete map when `p ≥ len`). -/
+theorem tensor_mut_write_eq_mapMut (t : Tensor ν α) (ht : Survivor.TInv t) (g : α → α)
+    (mem0 : Nat → α) (hmem : t.data = (List.range t.data.length).map mem0) (p : Nat) :
+    ∃ cells st mem',
+      collect (writeNext shapeNext (TSource.ofTensor t).cell g) p
+          (ShapeIter.new (t.shape.map (·.2)), mem0) = .ok (cells, (st, mem')) ∧
+      (List.range t.data.length).map mem' = (Survivor.mapMut t g (some p)).state.data := by
+  have htf := (Survivor.tinv_iff_tryFrom t).1 ht
+  have F := (tensor_faithful t.shape t.data t htf).2
+  have hlen : prod (t.shape.map (·.2)) = t.data.length := by rw [ht.1]; rfl
+  have h := mut_writes_eq_map (shape_enumerates (t.shape.map (·.2))) F mem0 g p
+  refine ⟨_, _, _, h, ?_⟩
+  have hm := Survivor.mapLoop_eq g p t.data 0
+  rw [Nat.zero_add] at hm
+  simp only [Survivor.mapMut, hm]
+  rw [hlen]
+  -- both sides are "g on the cells before p, the old value from p on"
+  have hL : (List.range t.data.length).map
+      (fun c => if c ∈ (List.range (min p t.data.length)).map (fun k => k) then g (mem0 c)
+        else mem0 c) =
+      (List.range t.data.length).map (fun i => if i < p then g (mem0 i) else mem0 i) := by
+    apply List.map_congr_left
+    intro c hc
+    have hc' := List.mem_range.mp hc
+    have : (c ∈ (List.range (min p t.data.length)).map (fun k => k)) ↔ c < p := by
+      simp only [List.map_id', List.mem_range]; omega
+    simp only [this]
+  rw [hL]
+  by_cases hp : p < t.data.length
+  · simp only [hp, if_true]
+    conv => rhs; rw [hmem]
+    exact (take_map_append_drop mem0 g t.data.length p).symm
+  · simp only [hp, if_false]
+    conv => rhs; rw [hmem]
+    rw [List.map_map]
+    apply List.map_congr_left
+    intro c hc
+    have hc' := List.mem_range.mp hc
+    have : c < p := by omega
+    simp [this]
+
+/-! ## `AsRecords` -/
+
+/-- **`AsRecords` yields the records of the container's cells in iteration order** — the link to
+    C06's container model: for any enumerating iterator over the `(number, index)` elements of a
+    record container `c` (`TensorIterator` / `RowMajorIterator` over it), the items of the
+    `AsRecords` iterator (`mapNext`), call by call until exhaustion, are exactly `c.toRecs`
+    (Model/RecordContainer.lean: `Record::from_existing(number, history)` per element). -/
+theorem asRecords_items_eq_toRecs {σ R : Type} (c : Cont R)
+    {next : σ → Outcome (Option (R × Nat) × σ)} {s0 : σ} {item : Nat → Option (R × Nat)}
+    {state : Nat → σ} (E : Enumerates next s0 c.elems.length item state)
+    (hitem : ∀ k, item k = c.elems[k]?) :
+    ∃ st, drain (mapNext (fun e : R × Nat => (⟨e.1, c.history, e.2⟩ : Rec R)) next)
+        (c.elems.length + 1) s0 = .ok (c.toRecs, st) := by
+  have E' := E.map (fun e : R × Nat => (⟨e.1, c.history, e.2⟩ : Rec R))
+  obtain ⟨h1, _⟩ := consumers_drain E' 0 (c.elems.length + 1) (by omega)
+  rw [E'.start] at h1
+  refine ⟨state (0 + (c.elems.length - 0 + 1)), ?_⟩
+  rw [h1]
+  congr 2
+  have := filterMap_range'_getElem?_map
+    (fun e : R × Nat => (⟨e.1, c.history, e.2⟩ : Rec R)) c.elems []
+  simp only [List.length_nil, List.nil_append] at this
+  simp only [Nat.sub_zero, Cont.toRecs, hitem]
+  exact this
 
 end EasyMl.C09
